@@ -81,7 +81,7 @@ CLAIMED.update({
  "C09": dict(
    text="Deductive proof, for 30 transaction bodies and helpers in actions/, that a failure reported by the storage layer on any statement is never swallowed (ghost flag dbfailed => non-nil error), that the commit hooks they register act only after a successful commit "
         "(hook obligations: the hook is symbolically run in commit-failure and commit-success mode), and of the transaction runner ent.Client.DoTx itself: it commits only after the wrapped function returned nil, rolls back otherwise, and reports success only when the commit went through "
-        "(ghost record of Commit/Rollback calls; deferred closure and named result modelled).",
+        "(ghost record of Commit/Rollback calls; deferred closure and named result modelled); and, at the API level, every unary handler that writes through a transaction leaves topics, subscriptions, messages, deliveries and snapshots exactly as they were whenever it answers with an error (any statement or the commit may fail).",
    note="DoCtxTxRetry's retry loop and the use of DoTx at call sites are a modelled idiom (rollback restores the tables), not re-verified per call; Commit/Rollback/BeginTx are intrinsics (database/sql is trusted). Crash points inside the SQL engine are its responsibility. "+TRUST,
    design="4/C09"),
  "C12": dict(
